@@ -44,6 +44,8 @@ from .common import hx, unhx, load_corpus
 
 ID = "C10"
 ENGINE = "xml"
+# companion pass: what conn.c makes of the parser's events (stream start / restart / end callbacks) runs on engine conn
+ALSO = [("c10conn", 400)]
 VARIANT = "std"
 STATEFUL = True
 LEVEL = "proof"
